@@ -187,6 +187,17 @@ pub fn check(prop: &str, scn: &Scenario, rf: &Ref, ex: &Exec) -> Verdict {
                     out.push(f("value", d));
                 }
             }
+            // a chunk size near usize::MAX over a source that is not indexable: `begin + c` overflows inside the
+            // concurrent iterator (builds with overflow checks); its own finding class
+            let huge = scn.cs.iter().any(|x| matches!(x.1, Chunk::Exact(c) | Chunk::Min(c) if c >= 1 << 62));
+            let overflow = ex.panic_msgs.iter().any(|m| m.contains("attempt to add with overflow") && m.contains("orx-concurrent-iter"));
+            if huge && overflow && (scn.src.is_iter() || scn.src.is_collection()) {
+                for x in out.iter_mut() {
+                    if x.key == "panic" {
+                        x.key = "huge-chunk/iterator-source".to_string();
+                    }
+                }
+            }
         }
         _ => return Verdict::Harness(format!("no oracle for {}", prop)),
     }
